@@ -5,6 +5,7 @@ package main
 import (
 	"fmt"
 	"go/ast"
+	"go/constant"
 	"go/token"
 	"go/types"
 	"strings"
@@ -676,6 +677,24 @@ func (x *Exec) execIterator(fr *Frame, st *State, con *FuncContract, fn *ssa.Fun
 		}
 		return x.toTerm(rv, types.Typ[types.Bool])
 	}
+	if neverContinues(yield.Fn) {
+		// the body always leaves the loop: at most one iteration, from the entry state itself
+		first := entry.clone()
+		first.pc = mkAnd(entry.pc, mkLt(mkInt(0), n))
+		var exits []*State
+		if first.pc != tFalse {
+			body(first, mkInt(0))
+			if first.pc != tFalse {
+				exits = append(exits, first)
+			}
+		}
+		none := entry.clone()
+		none.pc = mkAnd(entry.pc, mkLe(n, mkInt(0)))
+		exits = append(exits, none)
+		m := x.mergeStates(exits)
+		*st = *m
+		return
+	}
 	plan := x.planHavoc(entry, cells, func(ds *State) {
 		i := fresh("dry.i", sortInt)
 		body(ds, i)
@@ -730,6 +749,26 @@ func (x *Exec) execIterator(fr *Frame, st *State, con *FuncContract, fn *ssa.Fun
 	exits = append(exits, done)
 	m := x.mergeStates(exits)
 	*st = *m
+}
+
+// neverContinues: every return of the yield function returns the constant false.
+func neverContinues(fn *ssa.Function) bool {
+	n := 0
+	for _, b := range fn.Blocks {
+		for _, in := range b.Instrs {
+			if r, ok := in.(*ssa.Return); ok {
+				n++
+				if len(r.Results) != 1 {
+					return false
+				}
+				c, ok := r.Results[0].(*ssa.Const)
+				if !ok || c.Value == nil || c.Value.Kind() != constant.Bool || constant.BoolVal(c.Value) {
+					return false
+				}
+			}
+		}
+	}
+	return n > 0
 }
 
 // jumpCellsZero assumes the go/ssa range-over-func state cell(s) are in the "ready" state.
